@@ -15,6 +15,20 @@ type zzRec struct {
 	meta map[string]any
 }
 
+// zzMeta4 extends zzMeta with values whose storage must not be short-cut: a nil value under a new key, and
+// numerically equal but distinct float values (+0.0 / -0.0).
+func zzMeta4(kind int) map[string]any {
+	switch kind {
+	case 4:
+		return map[string]any{"z": nil}
+	case 5:
+		return map[string]any{"n": 0.0}
+	case 6:
+		return map[string]any{"n": math.Copysign(0, -1)}
+	}
+	return zzMeta(kind)
+}
+
 func zzJSON(m map[string]any) string {
 	if len(m) == 0 {
 		return ""
@@ -37,12 +51,12 @@ func ZZVerifC04Model() {
 		case 0: // add (or rejected duplicate)
 			v := rt.Float32("vec")
 			rt.Assume(v == v)
-			mk := rt.IntRange("meta", 0, 3)
-			err := e.VAdd("i0", id, []float32{v}, zzMeta(mk))
+			mk := rt.IntRange("meta", 0, 5)
+			err := e.VAdd("i0", id, []float32{v}, zzMeta4(mk))
 			rt.Assert((err == nil) == !r.live, "VAdd: succeeds exactly when the id is not live")
 			if err == nil {
 				r.live, r.bits, r.meta = true, math.Float32bits(v), map[string]any{}
-				for k, x := range zzMeta(mk) {
+				for k, x := range zzMeta4(mk) {
 					r.meta[k] = x
 				}
 			}
@@ -53,11 +67,11 @@ func ZZVerifC04Model() {
 				*r = zzRec{}
 			}
 		case 2: // metadata merge
-			mk := rt.IntRange("meta", 2, 3)
-			err := e.VSetMetadata("i0", id, zzMeta(mk))
+			mk := rt.IntRange("meta", 2, 6)
+			err := e.VSetMetadata("i0", id, zzMeta4(mk))
 			rt.Assert((err == nil) == r.live, "VSetMetadata: succeeds exactly when the id is live")
 			if err == nil {
-				for k, x := range zzMeta(mk) {
+				for k, x := range zzMeta4(mk) {
 					r.meta[k] = x
 				}
 			}
@@ -176,8 +190,10 @@ func ZZVerifC04Lifecycle() {
 				rt.Assert(zzJSON(d.Metadata) == zzJSON(m.meta), "life cycle: VGet returns the metadata of the current incarnation")
 			}
 		}
-		many, merr := e.VGetMany("i0", ids)
-		rt.Assert(merr == nil && len(many) == liveCount, "life cycle: VGetMany returns exactly the live ids")
+		if step == n-1 { // (the worker pool of GetVectors multiplies schedules: read once, at the end)
+			many, merr := e.VGetMany("i0", ids)
+			rt.Assert(merr == nil && len(many) == liveCount, "life cycle: VGetMany returns exactly the live ids")
+		}
 		got, _, cerr := e.VGetIDsByCursor("i0", 0, 10)
 		rt.Assert(cerr == nil && len(got) == liveCount, "life cycle: cursor listing has exactly the live ids")
 		for _, g := range got {
